@@ -25,6 +25,12 @@ substitution (copy of i instead of j) and swap.  Under strict kex the sequence n
 at every NEWKEYS, so pairs with the same index inside their epochs carry the SAME sequence
 number under different keys (class same-seq-index): only the keys tell them apart.
 
+Large packets: per framing class a stream whose larger message has a generated body of
+2100-70000 bytes (up to and beyond a full 32 KiB channel-data / SFTP packet; incompressible or a
+short period); in EVERY stripe of 1024 wire bytes of every packet longer than 2 KiB one flip at a
+generated offset (thorough: three), flips of each of its last 16 bytes, a deletion and an insertion
+per 8 stripes: every part of a packet, however long, is covered by its MAC / tag.
+
 Fault plans: exhaustive single-byte XOR (generated non-zero mask per position; thorough adds
 0x01, 0x80, 0xFF), exhaustive single-byte deletion, exhaustive single-byte insertion (generated
 value) at every position of the recorded stream; plus generated multi-fault plans (<= 4 ops
@@ -32,10 +38,14 @@ out of flip / delete / insert / truncate / whole-packet swap, drop, duplicate, r
 earlier packet at a later place).
 
 Oracle: a freshly keyed paramiko receiver (Transport._parse_newkeys on the clear NEWKEYS, then
-packetizer.read_message in a loop, generated recv fragmentation) reads the edited stream until
-it raises (any exception class: type purity is C38) or runs out of bytes; every message it
-delivers must equal, in type and body, the message at the same index of the original
-sequence (an unmodified prefix); anything else, or an extra message, is a violation.
+packetizer.read_message in a loop, generated recv fragmentation) reads the edited stream.  A read
+that raises (any exception class: type purity is C38) does not end the observation: the harness
+keeps calling read_message on the SAME Packetizer (what a consumer that goes on reading is handed)
+until the bytes run out or 4 reads in a row have raised.  Every message delivered, before or after
+a raising read, must equal, in type and body, the message at the same index of the original
+sequence (the delivered messages, in delivery order, are an unmodified prefix); anything else, or an
+extra message, is a violation (clauses delivered-differs / delivered-extra-message, suffix
+-after-error when the message was handed out by a read that followed a raising one).
 """
 from hypothesis import strategies as st
 
@@ -63,7 +73,14 @@ RULE = (
     "(classes suite-kept / suite-changed), strict "
     "kex in 3 of 4 classes; EVERY (i, j) with packet i in an earlier and packet j in a later epoch x {replay-at, subst-at, swap-at} "
     "is enumerated (classes same-seq-index = equal index inside the two epochs, i.e. equal sequence number under strict kex; "
-    "xepoch-style:<classic|etm|aead>); the generic stream generator also keeps the suite at every second mid-stream re-key. one case = "
+    "xepoch-style:<classic|etm|aead>); the generic stream generator also keeps the suite at every second mid-stream re-key. "
+    "Large packets (class large-packet; quick: the 11 representatives + 2 with zlib, thorough: all pairs x {none, zlib}): one generated "
+    "stream per class whose larger message has 2100-70000 body bytes (incompressible / short period); in EVERY 1024-byte stripe of every "
+    "packet > 2 KiB a flip at a generated offset (thorough 3), flips of each of the packet's last 16 bytes, one deletion and one insertion "
+    "per 8 stripes (classes packet-wire-bytes>=<1|4|16|32|64>KiB, edit-offset-in-packet>=<..>KiB, edit-in-packet-tail). Read-on (every "
+    "case; counters read-on-after-error, read-on-after-error:later-messages-delivered-in-sequence): after a read that raises the harness "
+    "keeps calling read_message on the same Packetizer until the bytes run out or 4 reads in a row raised; all messages delivered, before "
+    "or after a raising read, in delivery order, must be a prefix of the sent sequence (clause suffix -after-error). one case = "
     "(recorded stream, fault plan). non-trivial = the plan changes bytes inside the packets the sender produced (not only "
     "trailing garbage); plans that leave the stream identical are discarded and counted; distinct by SHA-1 of stream+plan"
 )
@@ -183,8 +200,15 @@ def _dname(stream):
     return stream.get("dname") or ("c2s" if stream["role"] == "server" else "s2c")
 
 
-def run_receiver(stream, data, frags=()):
-    """Feed prelude + edited data to a fresh receiver; returns (delivered list, stop reason)."""
+READ_ON = 4  # consecutive failing reads after which the harness stops asking the same Packetizer for more
+
+
+def run_receiver(stream, data, frags=(), read_on=READ_ON):
+    """Feed prelude + edited data to a fresh receiver and keep reading the SAME Packetizer: after a
+    read that raises, read_message is called again (a consumer that wants to see what else it is
+    handed) until the bytes run out or ``read_on`` reads in a row have raised.  Returns
+    (delivered list, first stop reason, number of messages delivered before the first raising
+    read or None when no read raised)."""
     r = pkt.PPeer(stream["role"], stream["strict"], frags)
     if stream["auth_first"]:
         r.auth()
@@ -205,34 +229,46 @@ def run_receiver(stream, data, frags=()):
     expected = stream["expected"]
     rekeys = list(stream["rekey_at"])
     epoch = 1
-    stop = "eof"
+    stop = None
+    first_error_at = None
+    errors = 0
+    installed = False
     while True:
         i = len(delivered)
         at_rekey = bool(rekeys) and rekeys[0] == i
         try:
             if at_rekey:
                 # what Transport does on an honest NEWKEYS; only taken when the message really is NEWKEYS
-                r.install(stream["epochs"][epoch])
-                r.send_newkeys()
-                r.drain()
+                if not installed:
+                    installed = True
+                    r.install(stream["epochs"][epoch])
+                    r.send_newkeys()
+                    r.drain()
                 cmd, body = r.recv_newkeys()
                 if cmd == pkt.MSG_NEWKEYS and body == b"":
                     rekeys.pop(0)
                     epoch += 1
+                    installed = False
             else:
                 cmd, body = r.recv()
         except EOFError:
-            stop = "eof"
+            stop = stop or "eof"
             break
         except Exception as e:
-            stop = "raises:" + type(e).__name__
-            break
+            if stop is None:
+                stop = "raises:" + type(e).__name__
+                first_error_at = len(delivered)
+            errors += 1
+            if errors >= 1 + read_on:
+                break
+            continue
+        errors = 0
         delivered.append(bytes([cmd]) + body)
         if len(delivered) > len(expected) + 2:
-            stop = "runaway"
+            stop = stop or "runaway"
             break
     r.close()
-    return delivered, stop
+    return delivered, stop, first_error_at
 
 
 def judge(ctx, stream, plan, frags, classes):
@@ -245,23 +281,32 @@ def judge(ctx, stream, plan, frags, classes):
     nontrivial = not data.startswith(original)
     case = {"stream": stream, "plan": plan, "frags": list(frags)}
     ctx.case(case, nontrivial, classes)
-    delivered, stop = run_receiver(stream, data, frags)
+    delivered, stop, err_at = run_receiver(stream, data, frags)
     expected = stream["expected"]
     su = stream["epochs"][0][_dname(stream)]
     fc = pkt.framing_class(*su[:2]) + ("+z" if su[2] != "none" else "")
     ops = "+".join(sorted(set(op[0] for op in plan)))
     for i, got in enumerate(delivered):
+        # messages handed out by reads that FOLLOW a raising read on the same Packetizer count like any other:
+        # everything delivered, in delivery order, must be a prefix of what was sent
+        late = "-after-error" if err_at is not None and i >= err_at else ""
         if i >= len(expected):
-            return ctx.violation("delivered-extra-message", "%s:%s" % (fc, ops), case, "message %d (type %d, %d bytes) delivered; the sender sent only %d; stop=%s" % (i, got[0], len(got) - 1, len(expected), stop))
+            return ctx.violation("delivered-extra-message" + late, "%s:%s" % (fc, ops), case, "message %d (type %d, %d bytes) delivered; the sender sent only %d; stop=%s" % (i, got[0], len(got) - 1, len(expected), stop))
         if got != expected[i]:
             what = "type" if got[:1] != expected[i][:1] else "body"
             return ctx.violation(
-                "delivered-differs",
+                "delivered-differs" + late,
                 "%s:%s:%s" % (fc, ops, what),
                 case,
-                "message %d delivered as type %d / %d bytes, sent type %d / %d bytes; plan %r; stop=%s" % (i, got[0], len(got) - 1, expected[i][0], len(expected[i]) - 1, plan, stop),
+                "message %d delivered as type %d / %d bytes, sent type %d / %d bytes; plan %r; stop=%s%s"
+                % (i, got[0], len(got) - 1, expected[i][0], len(expected[i]) - 1, plan, stop, "; %d message(s) were delivered before the first raising read" % err_at if late else ""),
             )
     ctx.count("stop:" + stop.split(":")[0])
+    if err_at is not None:
+        ctx.count("read-on-after-error")
+        if len(delivered) > err_at:
+            # e.g. an inserted copy is refused and the untouched original that follows is still in step
+            ctx.count("read-on-after-error:later-messages-delivered-in-sequence")
     if len(plan) == 1 and plan[0][0] == "flip":
         # which packet was hit?  Delivering it (unchanged content) is not what the statement forbids, but a
         # receiver that checks the whole MAC/tag never does it: kept as an observation counter in the evidence.
@@ -278,16 +323,21 @@ def judge(ctx, stream, plan, frags, classes):
 # ----------------------------------------------------------------------------- exploration
 
 
-def _stream_spec_strategy(S, cipher_mac=None, comps=("none", "zlib", "zlib@openssh.com"), rekey=True, role=None, strict=None, other_style=None, long_n=None, xepoch=False):
+def _stream_spec_strategy(S, cipher_mac=None, comps=("none", "zlib", "zlib@openssh.com"), rekey=True, role=None, strict=None, other_style=None, long_n=None, xepoch=False, big=None):
     """Sender-side description of one stream.  ``cipher_mac``: suite of the direction that
     carries the stream (None = generated); the opposite direction gets its own generated suite
     of style ``other_style`` (None = generated style) in every epoch.  ``long_n`` = (lo, hi):
     a long stream of lo..hi tiny pairwise different packets instead of the 2-6 packet one.
     A mid-stream re-key keeps the suite of the stream direction in every second case (what a real
     renegotiation does).  ``xepoch``: 2-3 epochs of 2-4 pairwise different packets each (tiny or 260-400 bytes), the
-    suite kept at the first re-key (and at every second later one)."""
+    suite kept at the first re-key (and at every second later one).  ``big`` = strategy for the body
+    length of the one larger message of a 2-6 packet stream (default 120-320 bytes); with ``big`` the
+    body is incompressible or a short period (never a run that zlib turns into a tiny packet)."""
     small = S.msg(st.integers(0, 80))
-    large = S.msg(st.integers(120, 400))
+    if big is None:
+        large = S.msg(st.integers(120, 320))
+    else:
+        large = st.tuples(st.integers(0, 255), big, st.sampled_from([2, 2, 2, 3]), st.integers(0, 1 << 16)).map(list)
     msgs1 = st.tuples(st.lists(small, min_size=1, max_size=3), large, st.lists(small, min_size=0, max_size=2)).map(lambda t: t[0] + [t[1]] + t[2])
     msgs2 = st.lists(small, min_size=1, max_size=3)
     suite = (st.tuples(S.cipher, S.mac) if cipher_mac is None else st.just(tuple(cipher_mac))).flatmap(lambda cm: st.sampled_from(comps).map(lambda z: [cm[0], cm[1], z]))
@@ -452,6 +502,53 @@ def cross_epoch(ctx, stream, frags):
     return True
 
 
+STRIPE = 1024
+
+
+def _size_classes(prefix, n):
+    return ["%s>=%dKiB" % (prefix, k) for k in (1, 4, 16, 32, 64) if n >= k * 1024]
+
+
+def large_packets(ctx, stream, mask_seed, pos_seed, frags, per_stripe=1, tail=16):
+    """Single-byte edits spread over the whole length of every packet of the stream that is longer
+    than 2 stripes: in EVERY stripe of 1024 wire bytes of such a packet ``per_stripe`` flips at
+    generated offsets (generated non-zero masks), plus flips of each of the last ``tail`` bytes of the
+    packet (end of the ciphertext, MAC / tag), plus one deletion and one insertion per 8 stripes.
+    Every part of a packet, however long, must be covered by its MAC / tag."""
+    base = _classes(stream, ["large-packet"])
+    L = len(mask_seed)
+    start = 0
+    done = 0
+    for ch in stream["chunks"]:
+        n = len(ch)
+        if n > 2 * STRIPE:
+            done += 1
+            size_cls = _size_classes("packet-wire-bytes", n)
+            offs = []
+            for si in range((n + STRIPE - 1) // STRIPE):
+                lo, hi = si * STRIPE, min(n, (si + 1) * STRIPE)
+                for k in range(per_stripe):
+                    offs.append(lo + pos_seed[(si * per_stripe + k) % len(pos_seed)] % (hi - lo))
+            offs += list(range(max(0, n - tail), n))
+            for q, off in enumerate(offs):
+                cls = base + size_cls + _size_classes("edit-offset-in-packet", off) + ["plan:flip"]
+                if off >= n - tail:
+                    cls.append("edit-in-packet-tail")
+                if judge(ctx, stream, [["flip", start + off, mask_seed[(off * 5 + 1) % L] or 0x80]], frags, cls) is False:
+                    return False
+                if q % 8 == 3 and q < len(offs) - tail:
+                    if judge(ctx, stream, [["del", start + off]], frags, base + size_cls + _size_classes("edit-offset-in-packet", off) + ["plan:del"]) is False:
+                        return False
+                    if judge(ctx, stream, [["ins", start + off, mask_seed[(off * 7 + 3) % L]]], frags, base + size_cls + _size_classes("edit-offset-in-packet", off) + ["plan:ins"]) is False:
+                        return False
+        start += n
+    if done:
+        ctx.count("large-packet-streams-enumerated")
+    else:
+        ctx.inconc("large-packet-stream-without-a-large-packet")
+    return True
+
+
 def exhaustive_stream(ctx, stream, mask_seed, extra_masks, frags):
     """Every single-byte flip / deletion / insertion position of the encrypted stream."""
     n = len(b"".join(stream["chunks"]))
@@ -567,6 +664,41 @@ def run(ctx):
             st.one_of(st.just([]), st.just([]), S.frags),
         )
         ctx.explore(lstrat, lbody, 1 + ctx.scale(1, 2), shrink=False, seed_offset=500 + idx)
+    # -- large packets: edits spread over every stripe of packets up to the largest sizes paramiko sends
+    # (a full 32 KiB channel / SFTP data packet and beyond), every framing class
+    big = st.one_of(st.integers(2100, 70000), st.integers(2100, 70000).map(lambda v: v), st.integers(32700, 32800), st.integers(2100, 4000))
+    if ctx.quick:
+        bwork = [(cm, "none") for cm in FRAMING_REPRESENTATIVES] + [(FRAMING_REPRESENTATIVES[i], "zlib") for i in (2, 3)]
+    else:
+        bwork = work
+    for idx, (cm, z) in enumerate(bwork):
+        if idx % ctx.nworkers != ctx.worker or ctx.unknown:
+            continue
+        if ctx.out_of_time():
+            complete[0] = False
+            break
+
+        state = {"n": 0}
+
+        def bbody(drawn, state=state):
+            spec, seed, pos_seed, frags = drawn
+            state["n"] += 1
+            if state["n"] == 1:
+                return  # the all-minimal first example
+            stream = _try_record(ctx, pkt.norm_case(spec))
+            if stream is None:
+                complete[0] = False
+                return
+            if large_packets(ctx, stream, seed, pos_seed, frags, per_stripe=1 if ctx.quick else 3) is False:
+                complete[0] = False
+
+        bstrat = st.tuples(
+            _stream_spec_strategy(S, cm, (z,), rekey=True, role=("client", "server")[(idx + 1) % 2], strict=bool(idx % 2), big=big),
+            mask_seed,
+            st.lists(st.integers(0, 1 << 16), min_size=37, max_size=37),
+            st.one_of(st.just([]), st.just([]), S.frags),
+        )
+        ctx.explore(bstrat, bbody, 1 + ctx.scale(1, 3), shrink=False, seed_offset=700 + idx)
     # -- cross-epoch plans: every (earlier-epoch packet, later-epoch packet) pair, every framing class
     for idx, (cm, z) in enumerate(work):
         if idx % ctx.nworkers != ctx.worker or ctx.unknown:
@@ -595,6 +727,8 @@ def run(ctx):
         )
         ctx.explore(xstrat, xbody, 1 + ctx.scale(1, 4), shrink=False, seed_offset=900 + idx)
     ctx.exhaustive = complete[0]
+    ctx.note("large_packets", "per framing class a stream whose larger message has a generated body of 2100-70000 bytes (incompressible / short period); in every 1024-byte stripe of every packet > 2 KiB a flip at a generated offset, flips of each of its last 16 bytes, a deletion and an insertion per 8 stripes")
+    ctx.note("read_on", "after a read that raises, read_message is called again on the same Packetizer until the bytes run out or %d reads in a row have raised; everything delivered, in order, must be a prefix of the sent sequence" % READ_ON)
     ctx.note("cross_epoch", "per framing class a stream of 2-3 key epochs x 2-4 packets (tiny / 260-400 bytes); every (earlier-epoch packet i, later-epoch packet j) pair x {replay-at, subst-at, swap-at} enumerated")
     ctx.note(
         "long_streams",
